@@ -1,4 +1,5 @@
 import RbModel.Trak
+import RbModel.Gen.TrakOrder
 import RbModel.Drv.Util
 
 /-! Line-protocol driver for the trak model (same requests as harness/src/ops/trak.rs; `trak prep` is crate-only:
@@ -16,6 +17,18 @@ def pItems (s : String) : Option (List S) :=
         pure (({ cluster := k, xa := 1000, ya := 1000, props := { cont := c == "1" } } : G), o == "1")
     | _ => none)
 
+/-- `cluster.props.gprops.on` (props = packed unicode_props, gprops = glyph_props); positions start as 1000 / 1000 / 0 / 0 -/
+def pItemsCx (s : String) : Option (List S) :=
+  (splitOn1 s ',').mapM (fun t => match splitOn1 t '.' with
+    | [k, p, g, o] => do
+        let k ← k.toNat?; let p ← p.toNat?; let g ← g.toNat?
+        pure (({ cluster := k, xa := 1000, ya := 1000, props := UProps.unpack p, var1 := g } : G), o == "1")
+    | _ => none)
+
+def pDir (s : String) : Option Dir :=
+  match s with
+  | "l" => some .ltr | "r" => some .rtl | "t" => some .ttb | "b" => some .btt | _ => none
+
 def cmds : List String := ["trak"]
 
 def handle (ts : List String) : Option String :=
@@ -25,6 +38,15 @@ def handle (ts : List String) : Option String :=
     let l ← pItems items
     let out := trackAll t (dir == "l" || dir == "r") l
     pure ("ok " ++ ",".intercalate (out.map (fun s => s!"{s.1.xa}:{s.1.ya}:{s.1.xo}:{s.1.yo}")))
+  | ["poscx", _hex, _ptem, dir, flags, level, scratch, t, items] => do
+    let dir ← pDir dir
+    let flags ← flags.toNat?; let level ← level.toNat?; let scratch ← scratch.toNat?
+    let t ← pInt t
+    let l ← pItemsCx items
+    let c : Cfg := { dir := dir, nat := none, flags := flags, level := level, preLen := 0 }
+    let s : Scratch := { hasDI := scratch / 2 % 2 == 1 }
+    let out := positionComplex RbModel.Gen.TrakOrder.trackingAfterZeroing c s dir t l
+    pure ("ok " ++ ",".intercalate (out.map (fun g => s!"{g.xa}:{g.ya}:{g.xo}:{g.yo}")))
   | _ => none
 
 end RbModel.Drv.Trak
